@@ -447,6 +447,11 @@ func (c10Stream) Generate(rng *rand.Rand, n int, thorough bool) []Case {
 		if route == 1 && rng.Intn(4) == 0 {
 			upanic = 1 // the application's unbind handler panics: the Unbind still ends the connection
 		}
+		if rng.Intn(10) == 0 {
+			// two connections unbind at the same time; the unbind handler of the first is slow
+			cs = append(cs, Case{Line: fmt.Sprintf("c10 pre=1 post=1 route=1 block=0 mode=plain seed=%d hold=0 upanic=0 twoconn=1", rng.Intn(1<<30)), Kind: "unbind"})
+			continue
+		}
 		pre, block := rng.Intn(9), rng.Intn(2)
 		if rng.Intn(8) == 0 {
 			// a long pipeline of requests whose handlers are all still blocked when the Unbind is read
@@ -458,8 +463,84 @@ func (c10Stream) Generate(rng *rand.Rand, n int, thorough bool) []Case {
 	return cs
 }
 
+// c10TwoConns: connection A's unbind handler is slow; meanwhile connection B sends a request and an Unbind: B's
+// unbind handler runs, nothing behind B's Unbind is served and B is closed - without waiting for A.
+func c10TwoConns() string {
+	var mu sync.Mutex
+	unbinds := map[int]int{}
+	var served []int64
+	releaseA := make(chan struct{})
+	aIn := make(chan struct{}, 1)
+	h := func(w *gldap.ResponseWriter, r *gldap.Request) {
+		mu.Lock()
+		served = append(served, r.VerifMessage().GetID())
+		mu.Unlock()
+		answer(w, r)
+	}
+	uh := func(w *gldap.ResponseWriter, r *gldap.Request) {
+		mu.Lock()
+		unbinds[r.ConnectionID()]++
+		mu.Unlock()
+		if r.VerifMessage().GetID() == 500 {
+			aIn <- struct{}{}
+			<-releaseA
+		}
+	}
+	sut, err := startServer(allRoutes(h, nil, uh), nil, nil)
+	if err != nil {
+		return "harness-error start: " + err.Error()
+	}
+	defer sut.tr.ReleaseAll()
+	a, err := connect(sut.addr, "plain")
+	if err != nil {
+		return "harness-error connect: " + err.Error()
+	}
+	defer a.close()
+	_ = a.send(Seq(Int(2, 500), P(1, 2, nil)).Ser())
+	select {
+	case <-aIn:
+	case <-time.After(5 * time.Second):
+		close(releaseA)
+		return "the unbind handler of the first connection never ran"
+	}
+	b, err := connect(sut.addr, "plain")
+	if err != nil {
+		close(releaseA)
+		return "harness-error connect: " + err.Error()
+	}
+	defer b.close()
+	verdict := "ok"
+	_ = b.send(append(append(opFrame("bind", 100), Seq(Int(2, 501), P(1, 2, nil)).Ser()...), opFrame("bind", 900)...))
+	if f, err := b.readFrame(3 * time.Second); err != nil || !strings.HasPrefix(strictView(f), "result id=100 ") {
+		verdict = fmt.Sprintf("the request before the second connection's unbind was not answered: %v", err)
+	} else if f, err := b.readFrame(3 * time.Second); err == nil {
+		verdict = "a request after the unbind was answered: " + strictView(f)
+	} else if ne, ok := err.(net.Error); ok && ne.Timeout() {
+		verdict = "connection not closed after unbind while another connection's unbind handler is still running"
+	}
+	close(releaseA)
+	time.Sleep(30 * time.Millisecond)
+	mu.Lock()
+	if verdict == "ok" && (len(unbinds) != 2) {
+		verdict = fmt.Sprintf("unbind handler ran on %d connections, want 2", len(unbinds))
+	}
+	for _, id := range served {
+		if id >= 900 && verdict == "ok" {
+			verdict = fmt.Sprintf("a handler ran for message %d which follows the unbind", id)
+		}
+	}
+	mu.Unlock()
+	a.close()
+	b.close()
+	sut.finish()
+	return verdict + "\t" + traceString(sut.tr.Snapshot(), "conn.", "loop.", "req.", "run.", "stop.")
+}
+
 func (c10Stream) Impl(c Case) string {
 	p := kv(c.Line)
+	if p["twoconn"] == "1" {
+		return c10TwoConns()
+	}
 	pre, post, mode := atoi(p["pre"]), atoi(p["post"]), p["mode"]
 	rng := rand.New(rand.NewSource(int64(atoi(p["seed"]))))
 	tlsConfigs()
